@@ -1,14 +1,45 @@
 import LabtechModel.Proofs.Workers
 import LabtechModel.Proofs.Plan
+import LabtechModel.Proofs.IntrLimitW
+import LabtechModel.Proofs.IntrLimitS
 /-!
 # C04 — Per-type and global concurrency limits are never exceeded
 
 Every statement is closed under: every problem (DAG, instances, types, limits, behaviours, failing and
 dying tasks), every configuration (backend, `max_workers`, `continue_on_failure`, `bust_cache`), every
 cache pre-state and every schedule (which workers' outcomes become visible in which polling round,
-several per round included).  The states `runLoop … sched …` for all `sched` are exactly the states at
-the loop head of `TaskCoordinator.run`; `submitAll … (readyTasks …)` of such a state is the state
-between the submit phase and `runner.wait`, where the in-flight sets are largest.
+several per round included).
+
+Part 1 (coarse model `Lt.run`, one step = one loop iteration).  The states `runLoop … sched …` for all
+`sched` are exactly the states at the loop head of `TaskCoordinator.run`; `submitAll … (readyTasks …)`
+of such a state is the state between the submit phase and `runner.wait`, where the in-flight sets are
+largest.
+
+Part 2 ("at no instant", statement-level model M10, `Model/Intr.lean`; `IntrRefine.lean` proves that
+executing all primitives of an iteration IS the coarse iteration).  `mainAt … k` is the state after the
+first `k` primitives (= Python statements that change modelled state) of the main loop's stream, for
+EVERY `k`; `handlerAt … k ds m` the state after `m` further primitives of the `KeyboardInterrupt`
+handler (`cancel`, drain along `ds`) entered at instant `k`; `secondAt … k ds m m2` after `m2`
+primitives of the second handler (`cancel`, `stop`, one more `process_completed_tasks`) entered by a
+second interrupt at instant `m` of the first. In every such state
+* `type_limit_every_instant…`: no type has more active (submitted-and-unfinished) tasks than its
+  `max_parallel` — also in the middle of the submit phase, whose ready list was computed from the
+  loop-head state;
+* `worker_limit_every_instant…`: at most `max_workers` worker processes are live (`alive`: started,
+  not yet reported / found dead / terminated), and `_running_id_to_future_and_process` (`running` +
+  `zombies`) has at most `max_workers` entries. Between `process.start()` and the registration in the
+  running map a live worker is in no map: there `alive` exceeds the map's size by one
+  (`worker_window_example`), and still `alive ≤ max_workers`, because `start_count` was computed from
+  the map before anything was started. No schedule, interrupt instant or drain makes `alive` exceed
+  `max_workers`: no finding here;
+* `serial_one_at_a_time_every_instant…`: the serial backend never has a worker process nor a running
+  entry; the only submission in execution is the one popped into `cur` (an `Option`), executed by the
+  `serialRun` primitive inside `wait`, in the caller; and on the observable trace
+  (`serial_in_flight_every_instant…`) the number of `start` records never exceeds the number of
+  `yield` records by more than one: at most one task has been started and not yet handed back.
+Granularity: a worker counts as live until the coordinator consumes its report (or finds it dead /
+terminates it); the OS process that has already put its result on the queue and is exiting is not
+modelled separately.
 -/
 namespace Lt.Props.C04
 open Lt
@@ -102,5 +133,211 @@ example : exP.maxPar 0 = some 2 ∧
     (afterSubmit exCfg exP [] 4 []).running.length = 1 ∧
     (afterSubmit exCfg exP [] 4 []).queued.length = 1 ∧
     (afterSubmit exCfg exP [] 4 []).ts.pending = [2] := by decide
+
+/-! ## Part 2: at no instant (statement granularity, interrupts included) -/
+
+/-- state after the first `k` primitives of the main loop's stream (`k` beyond its end: the end) -/
+abbrev mainAt (cfg : Config) (p : Problem) (store : Store) (fuel : Nat) (sched : List Choice) (k : Nat) : IS :=
+  stateAt cfg p store fuel sched k
+
+/-- state after `m` primitives of the first interrupt handler entered at instant `k` -/
+def handlerAt (cfg : Config) (p : Problem) (store : Store) (fuel : Nat) (sched : List Choice) (k : Nat)
+    (ds : List Choice) (m : Nat) : IS :=
+  runPrims cfg p ((handlerPrims cfg p (reqTids p) ds (mainAt cfg p store fuel sched k)).take m)
+    (mainAt cfg p store fuel sched k)
+
+/-- state after `m2` primitives of the second handler entered at instant `m` of the first -/
+def secondAt (cfg : Config) (p : Problem) (store : Store) (fuel : Nat) (sched : List Choice) (k : Nat)
+    (ds : List Choice) (m m2 : Nat) : IS :=
+  runPrims cfg p ((secondPrims cfg p (reqTids p) (handlerAt cfg p store fuel sched k ds m)).take m2)
+    (handlerAt cfg p store fuel sched k ds m)
+
+/-- the states of `interruptedRun` are among these -/
+theorem interruptedRun_states (cfg : Config) (p : Problem) (store : Store) (fuel : Nat)
+    (sched ds : List Choice) (k : Nat) (k2 : Option Nat) :
+    (∃ k', (interruptedRun cfg p store fuel sched k ds k2).atIntr = mainAt cfg p store fuel sched k') ∧
+    ((∃ k', (interruptedRun cfg p store fuel sched k ds k2).final = mainAt cfg p store fuel sched k') ∨
+     (∃ m, (interruptedRun cfg p store fuel sched k ds k2).final = handlerAt cfg p store fuel sched k ds m) ∨
+     (∃ m m2, (interruptedRun cfg p store fuel sched k ds k2).final = secondAt cfg p store fuel sched k ds m m2)) := by
+  by_cases hk : k < (mainOf cfg p store fuel sched).length
+  · have hall : ∀ (l : List Prim), l.take l.length = l := fun l => List.take_length
+    cases k2 with
+    | none =>
+      rw [interruptedRun_single store fuel sched ds k hk]
+      exact ⟨⟨k, rfl⟩, Or.inr (Or.inl ⟨_, by simp only [handlerAt]; rw [hall]⟩)⟩
+    | some m =>
+      by_cases hm : m < (handlerPrims cfg p (reqTids p) ds (stateAt cfg p store fuel sched k)).length
+      · rw [interruptedRun_double store fuel sched ds k m hk hm]
+        exact ⟨⟨k, rfl⟩, Or.inr (Or.inr ⟨m, _, by simp only [secondAt, handlerAt]; rw [hall]⟩)⟩
+      · rw [interruptedRun_late store fuel sched ds k m hk hm, interruptedRun_single store fuel sched ds k hk]
+        exact ⟨⟨k, rfl⟩, Or.inr (Or.inl ⟨_, by simp only [handlerAt]; rw [hall]⟩)⟩
+  · have hk' : ¬ k < (mainStream cfg p (reqTids p) sched (initIS cfg p store fuel)).length := hk
+    have hfin : runPrims cfg p (mainStream cfg p (reqTids p) sched (initIS cfg p store fuel)) (initIS cfg p store fuel)
+        = mainAt cfg p store fuel sched k := by
+      simp only [mainAt, stateAt, mainOf]
+      rw [List.take_of_length_le (Nat.le_of_not_lt hk')]
+    simp only [interruptedRun, hk', if_false]
+    exact ⟨⟨k, hfin⟩, Or.inl ⟨k, hfin⟩⟩
+
+/-- PER-TYPE LIMIT AT EVERY INSTANT of the main loop: after every primitive, the middle of the
+    submit phase included -/
+theorem type_limit_every_instant (cfg : Config) (p : Problem) (store : Store) (fuel : Nat)
+    (sched : List Choice) (k : Nat) (T L : Nat) (hL : p.maxPar T = some L) :
+    typeCount p (mainAt cfg p store fuel sched k).rs.ts.active T ≤ L :=
+  (always_limit_main (cfg := cfg) (p := p) (reqTids p) sched _ (init_limit cfg p store fuel)).prefix k T L hL
+
+/-- … and at every instant of the interrupt handler entered at any instant `k` -/
+theorem type_limit_every_instant_handler (cfg : Config) (p : Problem) (store : Store) (fuel : Nat)
+    (sched : List Choice) (k : Nat) (ds : List Choice) (m : Nat) (T L : Nat) (hL : p.maxPar T = some L) :
+    typeCount p (handlerAt cfg p store fuel sched k ds m).rs.ts.active T ≤ L :=
+  (always_limit_handler (cfg := cfg) (p := p) (reqTids p) ds _
+    (fun T L hL => type_limit_every_instant cfg p store fuel sched k T L hL)).prefix m T L hL
+
+/-- … and at every instant of the second handler (double interrupt at any `k`, `m`) -/
+theorem type_limit_every_instant_second (cfg : Config) (p : Problem) (store : Store) (fuel : Nat)
+    (sched : List Choice) (k : Nat) (ds : List Choice) (m m2 : Nat) (T L : Nat) (hL : p.maxPar T = some L) :
+    typeCount p (secondAt cfg p store fuel sched k ds m m2).rs.ts.active T ≤ L :=
+  (always_limit_second (cfg := cfg) (p := p) (reqTids p) _
+    (fun T L hL => type_limit_every_instant_handler cfg p store fuel sched k ds m T L hL)).prefix m2 T L hL
+
+/-- GLOBAL LIMIT AT EVERY INSTANT of the main loop: at most `max_workers` live worker processes
+    and at most `max_workers` entries in the executor's running map, after every primitive -/
+theorem worker_limit_every_instant (cfg : Config) (p : Problem) (store : Store) (fuel : Nat)
+    (sched : List Choice) (k : Nat) :
+    (mainAt cfg p store fuel sched k).alive.length ≤ cfg.maxWorkers ∧
+    (mainAt cfg p store fuel sched k).rs.running.length + (mainAt cfg p store fuel sched k).zombies.length
+      ≤ cfg.maxWorkers :=
+  (always_W_main (cfg := cfg) (p := p) (reqTids p) sched _ (WI_init store fuel)).prefix k
+
+theorem worker_limit_every_instant_handler (cfg : Config) (p : Problem) (store : Store) (fuel : Nat)
+    (sched : List Choice) (k : Nat) (ds : List Choice) (m : Nat) :
+    (handlerAt cfg p store fuel sched k ds m).alive.length ≤ cfg.maxWorkers ∧
+    (handlerAt cfg p store fuel sched k ds m).rs.running.length +
+      (handlerAt cfg p store fuel sched k ds m).zombies.length ≤ cfg.maxWorkers :=
+  (always_W_handler (cfg := cfg) (p := p) (reqTids p) ds _
+    (worker_limit_every_instant cfg p store fuel sched k)).prefix m
+
+theorem worker_limit_every_instant_second (cfg : Config) (p : Problem) (store : Store) (fuel : Nat)
+    (sched : List Choice) (k : Nat) (ds : List Choice) (m m2 : Nat) :
+    (secondAt cfg p store fuel sched k ds m m2).alive.length ≤ cfg.maxWorkers ∧
+    (secondAt cfg p store fuel sched k ds m m2).rs.running.length +
+      (secondAt cfg p store fuel sched k ds m m2).zombies.length ≤ cfg.maxWorkers :=
+  (always_W_second (cfg := cfg) (p := p) (reqTids p) _
+    (worker_limit_every_instant_handler cfg p store fuel sched k ds m)).prefix m2
+
+/-- outside `_start_processes`' loop body every live worker is an entry of the running map (so
+    the two counts agree up to workers found dead); at loop heads in particular -/
+theorem worker_alive_tracked_loop_head (cfg : Config) (p : Problem) (store : Store) (fuel : Nat)
+    (sched : List Choice) :
+    (runPrims cfg p (mainOf cfg p store fuel sched) (initIS cfg p store fuel)).alive.Sublist
+      ((runPrims cfg p (mainOf cfg p store fuel sched) (initIS cfg p store fuel)).rs.running.map Job.tid) := by
+  have h : ∀ (sched : List Choice) (s : IS), WI cfg s →
+      WI cfg (runPrims cfg p (mainStream cfg p (reqTids p) sched s) s) := by
+    intro sched
+    induction sched with
+    | nil => intro s h; exact h
+    | cons c cs ih =>
+      intro s h
+      unfold mainStream
+      split
+      · split
+        · rw [runPrims_append]
+          exact ih _ (always_W_iteration (cfg := cfg) (p := p) (reqTids p) c s h).2
+        · exact h
+      · exact h
+  exact (h sched _ (WI_init store fuel)).sub
+
+/-- SERIAL BACKEND AT EVERY INSTANT: no worker process and no running entry ever exists; the
+    submission in execution is the single `cur` popped by `wait` (executed in the caller) -/
+theorem serial_one_at_a_time_every_instant (cfg : Config) (p : Problem) (store : Store) (fuel : Nat)
+    (sched : List Choice) (k : Nat) (hs : cfg.backend = .serial) :
+    (mainAt cfg p store fuel sched k).alive = [] ∧ (mainAt cfg p store fuel sched k).rs.running = [] ∧
+    (mainAt cfg p store fuel sched k).cur.toList.length ≤ 1 := by
+  have h := (always_Idle_main (cfg := cfg) (p := p) hs (reqTids p) sched (initIS cfg p store fuel) ⟨rfl, rfl⟩).prefix k
+  exact ⟨h.2, h.1, by cases (mainAt cfg p store fuel sched k).cur <;> simp⟩
+
+theorem serial_one_at_a_time_every_instant_handler (cfg : Config) (p : Problem) (store : Store) (fuel : Nat)
+    (sched : List Choice) (k : Nat) (ds : List Choice) (m : Nat) (hs : cfg.backend = .serial) :
+    (handlerAt cfg p store fuel sched k ds m).alive = [] ∧ (handlerAt cfg p store fuel sched k ds m).rs.running = [] := by
+  have h0 := serial_one_at_a_time_every_instant cfg p store fuel sched k hs
+  have h := (always_Idle_handler (cfg := cfg) (p := p) (reqTids p) ds _ ⟨h0.2.1, h0.1⟩).prefix m
+  exact ⟨h.2, h.1⟩
+
+theorem serial_one_at_a_time_every_instant_second (cfg : Config) (p : Problem) (store : Store) (fuel : Nat)
+    (sched : List Choice) (k : Nat) (ds : List Choice) (m m2 : Nat) (hs : cfg.backend = .serial) :
+    (secondAt cfg p store fuel sched k ds m m2).alive = [] ∧
+    (secondAt cfg p store fuel sched k ds m m2).rs.running = [] := by
+  have h0 := serial_one_at_a_time_every_instant_handler cfg p store fuel sched k ds m hs
+  have h := (always_Idle_second (cfg := cfg) (p := p) (reqTids p) _ ⟨h0.2, h0.1⟩).prefix m2
+  exact ⟨h.2, h.1⟩
+
+/-- SERIAL BACKEND, on the observable trace, at every instant of the main loop: at most ONE task
+    has been started (`Ev.start`: `run()` or the cache load entered) and not yet yielded back to the
+    coordinator (`Ev.yield`) -/
+theorem serial_in_flight_every_instant (cfg : Config) (p : Problem) (store : Store) (fuel : Nat)
+    (sched : List Choice) (k : Nat) (hs : cfg.backend = .serial) :
+    nStart (mainAt cfg p store fuel sched k) ≤ nYield (mainAt cfg p store fuel sched k) + 1 :=
+  (always_J_main_serial (cfg := cfg) (p := p) hs (reqTids p) sched (initIS cfg p store fuel)
+    (J0_init store fuel)).prefix k
+
+theorem serial_in_flight_every_instant_handler (cfg : Config) (p : Problem) (store : Store) (fuel : Nat)
+    (sched : List Choice) (k : Nat) (ds : List Choice) (m : Nat) (hs : cfg.backend = .serial) :
+    nStart (handlerAt cfg p store fuel sched k ds m) ≤ nYield (handlerAt cfg p store fuel sched k ds m) + 1 :=
+  (always_J_handler (cfg := cfg) (p := p) (reqTids p) ds _
+    (serial_in_flight_every_instant cfg p store fuel sched k hs)).prefix m
+
+theorem serial_in_flight_every_instant_second (cfg : Config) (p : Problem) (store : Store) (fuel : Nat)
+    (sched : List Choice) (k : Nat) (ds : List Choice) (m m2 : Nat) (hs : cfg.backend = .serial) :
+    nStart (secondAt cfg p store fuel sched k ds m m2) ≤ nYield (secondAt cfg p store fuel sched k ds m m2) + 1 :=
+  (always_J_second (cfg := cfg) (p := p) (reqTids p) _
+    (serial_in_flight_every_instant_handler cfg p store fuel sched k ds m hs)).prefix m2
+
+/-- for contrast: a process backend with `max_workers = 2` does have two tasks started and not
+    yielded (k = 12 of `exP`'s stream with two workers) — the serial bound is not vacuous … -/
+example : nStart (mainAt { exCfg with maxWorkers := 2 } exP [] 4 [⟨fun _ => true⟩] 12) = 2 ∧
+    nYield (mainAt { exCfg with maxWorkers := 2 } exP [] 4 [⟨fun _ => true⟩] 12) = 0 := by decide
+
+/-- … and the serial runner at k = 6 (first task run, not yet yielded) has exactly one in flight,
+    at k = 9 (after `serialSaveBegin`, `serialSaveEnd`, `popFuture`) none, with one `yield` on record -/
+example : nStart (mainAt { exCfg with backend := .serial } exP [] 4 [⟨fun _ => true⟩] 6) = 1 ∧
+    nYield (mainAt { exCfg with backend := .serial } exP [] 4 [⟨fun _ => true⟩] 6) = 0 ∧
+    nStart (mainAt { exCfg with backend := .serial } exP [] 4 [⟨fun _ => true⟩] 9) = 1 ∧
+    nYield (mainAt { exCfg with backend := .serial } exP [] 4 [⟨fun _ => true⟩] 9) = 1 := by decide
+
+/-! non-vacuity at mid-iteration prefixes (`exP`: three tasks of one type with `max_parallel = 2`,
+    `exCfg`: fork, `max_workers = 1`). The stream starts: 0 startTask 0, 1 enqueue 0, 2 procStart 0,
+    3 regRunning 0, 4 unregPending 0, 5 regFuture 0, 6 startTask 1, 7 enqueue 1, 8 regFuture 1,
+    9 consumeResults … -/
+
+/-- k = 7, in the middle of the submit phase: the type's limit is reached (2 active of 2 allowed),
+    a third task is pending and stays so -/
+example : exP.maxPar 0 = some 2 ∧
+    typeCount exP (mainAt exCfg exP [] 4 [⟨fun _ => true⟩] 7).rs.ts.active 0 = 2 ∧
+    (mainAt exCfg exP [] 4 [⟨fun _ => true⟩] 7).rs.ts.pending = [2] ∧
+    (mainOf exCfg exP [] 4 [⟨fun _ => true⟩]).length > 9 := by decide
+
+/-- k = 3, inside `_start_processes`' loop body (after `process.start()`, before the running map
+    is written): one live worker = `max_workers`, the running map is still empty -/
+theorem worker_window_example :
+    (mainAt exCfg exP [] 4 [⟨fun _ => true⟩] 3).alive = [0] ∧
+    (mainAt exCfg exP [] 4 [⟨fun _ => true⟩] 3).rs.running.length = 0 ∧
+    exCfg.maxWorkers = 1 := by decide
+
+/-- k = 8: the second submission stays queued, the limit `max_workers = 1` bites -/
+example : (mainAt exCfg exP [] 4 [⟨fun _ => true⟩] 8).alive = [0] ∧
+    (mainAt exCfg exP [] 4 [⟨fun _ => true⟩] 8).rs.queued.map Job.tid = [1] := by decide
+
+/-- an interrupt in that window (k = 3), then two primitives of the handler, then a second
+    interrupt: the bounds hold in a state with a live, untracked worker -/
+example : (secondAt exCfg exP [] 4 [⟨fun _ => true⟩] 3 [⟨fun _ => true⟩] 1 2).alive = [0] ∧
+    (secondAt exCfg exP [] 4 [⟨fun _ => true⟩] 3 [⟨fun _ => true⟩] 1 2).rs.running = [] := by decide
+
+/-- serial backend, k = 6 (0 startTask 0, 1 serialAppend 0, 2 startTask 1, 3 serialAppend 1,
+    4 popDeque, 5 serialRun): the first submission has been run and is not yet completed, the
+    second is still in the deque, the third is held back by `max_parallel`; no worker process -/
+example : (mainAt { exCfg with backend := .serial } exP [] 4 [⟨fun _ => true⟩] 6).cur.map Job.tid = some 0 ∧
+    (mainAt { exCfg with backend := .serial } exP [] 4 [⟨fun _ => true⟩] 6).curOut = some (.ok 0) ∧
+    (mainAt { exCfg with backend := .serial } exP [] 4 [⟨fun _ => true⟩] 6).rs.queued.map Job.tid = [1] ∧
+    (mainAt { exCfg with backend := .serial } exP [] 4 [⟨fun _ => true⟩] 6).alive = [] := by decide
 
 end Lt.Props.C04
